@@ -583,8 +583,22 @@ class Emitter:
         given = dict(e.fields)
         if e.base is not None or set(given) != set(order):
             raise EmitError("struct literal %s: fields %r, expected %r" % (name, sorted(given), order))
-        return self.exprs([given[f] for f in order], env,
+        vals = []
+        for f in order:
+            if self.default_call(given[f]) and "defaults" in self.v:
+                # `field: Default::default()`: chosen by the field's type (vocabulary key defaults)
+                fty = st["fields"][f][2]
+                if repr(fty) not in self.v["defaults"]:
+                    raise EmitError("Default::default() for field %s of type %r: no default in the vocabulary" % (f, fty))
+                vals.append(N("rawterm", term=self.v["defaults"][repr(fty)], ty=fty))
+            else:
+                vals.append(given[f])
+        return self.exprs(vals, env,
                           lambda ts, tys, env1: k("(%s %s)" % (st["ctor"][0], " ".join(ts)), ("struct", name), env1))
+
+    def e_rawterm(self, e, env, k):
+        """a Gallina term chosen by the translator itself (never produced by the Rust parser)"""
+        return k(e.term, e.ty, env)
 
     def default_call(self, e):
         return (e.kind == "call" and e.f.kind == "path" and e.f.segs[-2:] == ["Default", "default"] and not e.args)
